@@ -16,12 +16,16 @@
 package c26
 
 import (
+	"bufio"
 	"encoding/json"
 	"fmt"
 	"io"
 	"log"
 	"os"
+	"strings"
+	"sync"
 	"testing"
+	"time"
 
 	"github.com/gopcua/opcua/debug"
 
@@ -36,7 +40,49 @@ func TestMain(m *testing.M) {
 		log.SetFlags(log.Lmicroseconds)
 		debug.Enable = true
 	}
+	if os.Getenv("VERIF_C26_DEV_RING") != "" {
+		// development only: keep the tail of gopcua's debug log in memory
+		log.SetOutput(devRing)
+		log.SetFlags(log.Lmicroseconds)
+		debug.Enable = true
+		debug.Logger = log.New(devRing, "debug: ", log.Lmicroseconds)
+		if pr, pw, err := os.Pipe(); err == nil {
+			// the prefix loggers of the debug package write to os.Stderr
+			os.Stderr = pw
+			go func() {
+				sc := bufio.NewScanner(pr)
+				sc.Buffer(make([]byte, 1<<20), 1<<20)
+				for sc.Scan() {
+					devRing.Write([]byte(time.Now().Format("15:04:05.000000 ") + sc.Text() + "\n"))
+				}
+			}()
+		}
+	}
 	ev.Main(m)
+}
+
+// ringWriter keeps the last lines written to it (development aid).
+type ringWriter struct {
+	mu    sync.Mutex
+	lines []string
+}
+
+var devRing = &ringWriter{}
+
+func (r *ringWriter) Write(b []byte) (int, error) {
+	r.mu.Lock()
+	r.lines = append(r.lines, string(b))
+	if len(r.lines) > 1500 {
+		r.lines = r.lines[len(r.lines)-1000:]
+	}
+	r.mu.Unlock()
+	return len(b), nil
+}
+
+func (r *ringWriter) dump() string {
+	r.mu.Lock()
+	defer r.mu.Unlock()
+	return strings.Join(r.lines, "")
 }
 
 var rec = ev.For("C26", "(a) TestSurvival: rapid-drawn stacks of 1-3 subscriptions x 1-4 monitored items (publishing interval 50-100 ms) on variables of an in-process gopcua server behind a fault proxy, a side writer changing every variable every ~20 ms, 1-3 faults (proxy resets all connections = channel loss with the session kept / the session is closed on the server from a side channel / the proxy is handed to a fresh server instance = restart) at drawn moments; non-trivial = every item had delivered written values before the first fault and the client went through a reconnect; (b) TestAcks: rapid-drawn publish histories of 4-40 responses for 1-3 subscriptions (data change with in- and out-of-order sequence numbers, keep-alive, ServiceFault, PublishResponse with a bad service result, dropped request; per-acknowledgement results Good / BadSequenceNumberUnknown / BadSubscriptionIdInvalid / other Bad, result count right or wrong; session kept or lost and subscriptions transferred or not on the reconnects the faults cause); non-trivial = at least one notification was delivered and at least one acknowledgement was captured; distinct by hash of the drawn case")
